@@ -41,6 +41,8 @@ def make_run_case(rng):
     sp = c["desc"]["space"]
     if sp["type"] == "grid" and rng.random() < 0.5:
         sp["per"] = [True, True, True]
+    # graphs with self-loops and parallel edges (what grid_to_graph makes of periodic axes of length 1 and 2)
+    trajgen.add_multi_edges(rng, c["desc"])
     return c
 
 
